@@ -1336,7 +1336,9 @@ impl<'a, B: BitmapSlice> From<VolatileSlice<'a, B>> for VolatileArrayRef<'a, u8,
 // cause test_non_atomic_access to fail.
 fn alignment(addr: usize) -> usize {
     // Rust is silly and does not let me write addr & -addr.
-    addr & (!addr + 1)
+    // `wrapping_neg` keeps this total: address 0 (a zero-length access to an unmapped on-demand
+    // region starts there) must not overflow in builds with overflow checks.
+    addr & addr.wrapping_neg()
 }
 
 pub(crate) mod copy_slice_impl {
